@@ -572,6 +572,10 @@ def paths(body, oracle, limit=400, arm_oracle=None):
                     e = st.get("init") if st.get("k") == "let" else st.get("e")
                     if e is None:
                         return run(i + 1, evs2)
+                    if st.get("k") == "let" and st.get("pat", {}).get("k") == "bind":
+                        # a boolean given a name keeps its value along the path (`let taken = c.is_falsey(); if taken {..}; taken`)
+                        bid = st["pat"]["id"]
+                        return ev(e, evs2, lambda v, e3: run(i + 1, e3 + [("bind", bid, v)] if v is not None else e3))
                     return ev(e, evs2, lambda v, e3: run(i + 1, e3))
                 if n.get("expr") is not None:
                     return ev(n["expr"], evs2, k)
@@ -589,6 +593,11 @@ def paths(body, oracle, limit=400, arm_oracle=None):
             return run(0, evs)
         if kind == "lit" and n.get("lk") == "bool":
             return k(bool(n["v"]), evs)
+        if kind == "path" and n.get("res", {}).get("r") == "local":
+            for e_ in reversed(evs):
+                if e_[0] == "bind" and e_[1] == n["res"].get("id"):
+                    return k(e_[2], evs)
+            return k(None, evs)
         if kind == "if":
             c = n["c"]
 
